@@ -36,9 +36,13 @@ def brAccount (remain n : Int) : Int := if remain > 0 then remain - n else remai
 def brClamp (plen lim : Int) : Int := if plen > lim then lim else plen
 /-- server.go `handleRequestStream`: `contentLength != 0 || len(reqInfo.Trailer) != 0`. -/
 def srvHasBody (contentLength ntrailer : Int) : Bool := decide (contentLength ≠ 0 ∨ ntrailer ≠ 0)
-/-- roundtrip.go `RoundTrip`: `(contentLength != 0 && req.Method != http.MethodHead) || len(trailer) > 0`. -/
-def cliHasBody (contentLength : Int) (isHead : Bool) (ntrailer : Int) : Bool :=
-  (decide (contentLength ≠ 0) && !isHead) || decide (ntrailer > 0)
+/-- roundtrip.go `RoundTrip`: `bodyLen := contentLength; if req.Method == http.MethodHead ||
+statusCode == http.StatusNotModified { bodyLen = 0 }` — a response to HEAD and a 304 response never
+contain content, whatever Content-Length they carry. -/
+def cliBodyLen (contentLength : Int) (isHead : Bool) (statusCode : Int) : Int :=
+  if isHead = true ∨ statusCode = 304 then 0 else contentLength
+/-- roundtrip.go `RoundTrip`: `bodyLen != 0 || len(trailer) > 0`. -/
+def cliHasBody (bodyLen ntrailer : Int) : Bool := decide (bodyLen ≠ 0 ∨ ntrailer > 0)
 /-- server.go `responseCanHaveBody`. -/
 def responseCanHaveBody (status : Int) : Bool :=
   if status ≥ 100 ∧ status ≤ 199 then false
@@ -235,8 +239,9 @@ deriving Repr, DecidableEq
 def serverBodyKind (contentLength : Int) (ntrailer : Nat) : BodyKind :=
   if srvHasBody contentLength ntrailer then .reader contentLength else .noBody
 
-def clientBodyKind (contentLength : Int) (isHead : Bool) (ntrailer : Nat) : BodyKind :=
-  if cliHasBody contentLength isHead ntrailer then .reader contentLength else .noBody
+def clientBodyKind (contentLength : Int) (isHead : Bool) (statusCode : Nat) (ntrailer : Nat) : BodyKind :=
+  let bodyLen := cliBodyLen contentLength isHead statusCode
+  if cliHasBody bodyLen ntrailer then .reader bodyLen else .noBody
 
 def recvBody {α : Type} (k : BodyKind) (fs : List (Frame α)) (e : StreamEnd) (ks : List Nat) :
     List Nat × Option RRes × Option α :=
